@@ -6,6 +6,7 @@ import (
 	"fmt"
 	"regexp"
 	"strconv"
+	"strings"
 	"go/ast"
 	"go/token"
 	"go/types"
@@ -372,6 +373,7 @@ type loopParts struct {
 	label string
 	ghostIdx string // name under which the range index is visible to invariants
 	headFact func() string // automatic invariant of range loops: 0 <= index <= len
+	exitFact func() string // holds when the loop condition fails (not at break exits)
 }
 
 // modifiedBy runs the loop body in dry mode (repeatedly, to a fixpoint) and returns the set
@@ -506,9 +508,22 @@ func (e *Exec) modifiedBy(lp *loopParts) (map[interface{}]bool, map[string]bool,
 				continue
 			}
 			for k, v := range f.vars {
-				if sv, ok := start.vars[k]; ok && !valEq(sv, v) && !modV[k] {
+				sv, ok := start.vars[k]
+				if ok && !valEq(sv, v) && !modV[k] {
 					modV[k] = true
 					changed = true
+				}
+				if !ok && !modV[k] {
+					// a path event first recorded inside the loop body: at the loop head it may or may not
+					// have happened in an earlier iteration
+					if ks, isStr := k.(string); isStr && isEventKey(ks) {
+						modV[k] = true
+						changed = true
+						if e.evSample == nil {
+							e.evSample = map[string]Val{}
+						}
+						e.evSample[ks] = v
+					}
 				}
 			}
 			for k, v := range f.heap {
@@ -563,10 +578,32 @@ func (e *Exec) havocSet(modV map[interface{}]bool, modH map[string]bool, allocCh
 	sortKeys(vk)
 	for _, k := range vk {
 		old, ok := e.st.vars[k]
+		ks, isStr := k.(string)
 		if !ok {
-			continue
+			if isStr {
+				old, ok = e.evSample[ks]
+			}
+			if !ok {
+				continue
+			}
 		}
 		e.st.vars[k] = e.havocLike(varHint(k), old, k)
+		if isStr && strings.HasPrefix(ks, "ncalls:") {
+			n := e.st.vars[k].(SV).T
+			e.addFact(sx(">=", n, "0"))
+		}
+	}
+	// called(f,k) <=> ncalls(f,k) > 0 for havoc'd events
+	for _, k := range vk {
+		ks, isStr := k.(string)
+		if !isStr || !strings.HasPrefix(ks, "called:") {
+			continue
+		}
+		c, ok1 := e.st.vars[k].(SV)
+		n, ok2 := e.st.vars["ncalls:"+strings.TrimPrefix(ks, "called:")].(SV)
+		if ok1 && ok2 {
+			e.addFact(sx("=", c.T, sx(">", n.T, "0")))
+		}
 	}
 	var hk []string
 	for k := range modH {
@@ -581,10 +618,12 @@ func (e *Exec) havocSet(modV map[interface{}]bool, modH map[string]bool, allocCh
 		old := e.heapGet(k, sort)
 		if locs, ok := e.invLocs[k]; ok && e.dry == 0 {
 			// only these (loop-invariant) locations are written by the loop
+			// (values read from one fresh heap version, so that instantiation contexts see the same canonical
+			// read (select <key> loc) as code that reads the location from a later version)
 			cur := old
-			elem := sort[len("(Array Int ") : len(sort)-1]
+			src := e.fresh("Hl."+k, sort)
 			for _, l := range locs {
-				cur = mkStore(cur, l, e.fresh("hl", elem))
+				cur = mkStore(cur, l, sx("select", src, l))
 			}
 			e.st.heap[k] = cur
 			continue
@@ -671,6 +710,11 @@ func (e *Exec) runLoop(lp *loopParts) {
 	bodySt.pc = e.namePC(mkAnd(afterCond.pc, c))
 	exitSt := afterCond.clone()
 	exitSt.pc = e.namePC(mkAnd(afterCond.pc, mkNot(c)))
+	if lp.exitFact != nil {
+		e.st = exitSt
+		e.assume(lp.exitFact())
+		exitSt = e.st
+	}
 	e.st = bodySt
 	if spec != nil && spec.Decreases != nil {
 		v, _ := e.evalSpec(spec.Decreases.Expr, e.loopEnv())
@@ -842,15 +886,17 @@ func (e *Exec) execRange(s *ast.RangeStmt, label string) {
 			}
 			bindKV(kv, v)
 		}
-		e.runLoop(lp)
-		// on normal exit every key has been visited
-		if !e.dead() {
-			if vis, ok := e.st.vars[visKey].(SV); ok {
-				q := e.fresh("anykey", SInt)
-				_ = q
-				e.assume(fmt.Sprintf("(forall ((k Int)) (! (=> %s %s) :pattern (%s)))", mkSelect(e.mapDom(m.T), "k"), mkSelect(vis.T, "k"), mkSelect(vis.T, "k")))
+		// when the iteration runs to completion every key that was present at the start and is still present
+		// has been visited (entries inserted during the iteration may be skipped; break exits know nothing)
+		domEntry := mkSelect(e.mapDom(m.T), "k")
+		lp.exitFact = func() string {
+			vis, ok := e.st.vars[visKey].(SV)
+			if !ok {
+				return tTrue
 			}
+			return fmt.Sprintf("(forall ((k Int)) (! (=> (and %s %s) %s) :pattern (%s)))", domEntry, mkSelect(e.mapDom(m.T), "k"), mkSelect(vis.T, "k"), mkSelect(vis.T, "k"))
 		}
+		e.runLoop(lp)
 	case *types.Chan:
 		lp.cond = func() string { return e.fresh("chopen", SBool) }
 		lp.pre = func() { bindKV(e.havocVal("recv", u.Elem()), nil) }
